@@ -123,6 +123,6 @@ Definition same_view (a b : option state) : bool :=
   end.
 
 Lemma bulk_fill_agrees :
-  forallb (fun n => same_view (bulk_fill n (init (mkCaps 2 30 5)) 1 0 3 7) (fill (N.to_nat n) 8%nat [] (init (mkCaps 2 30 5)) 1 0 3 7))
+  forallb (fun n => same_view (bulk_fill n (init (mkCaps 2 30 5)) 1 0 3 7) (fill (N.to_nat n) 8%nat 0%nat (init (mkCaps 2 30 5)) 1 0 3 7))
           [1; 2; 5; 17; 30; 31] = true.
 Proof. vm_compute. reflexivity. Qed.
